@@ -813,7 +813,10 @@ impl<'a> Searcher<'a> {
 
     #[cfg(unix)]
     fn ok_to_visit_dir(&mut self, entry: &DirEntry, file_type: FileType) -> bool {
-        let ino = entry.ino();
+        let ino = match self.current_follow_symlinks && file_type.is_symlink() {
+            true => fs::metadata(entry.path()).map(|m| m.ino()).unwrap_or(entry.ino()),
+            false => entry.ino(),
+        };
         if self.visited_inodes.contains(&ino) {
             return false;
         } else {
